@@ -1,6 +1,7 @@
 """Verification driver: one contract target -> paths -> obligations -> solver verdicts."""
 import ast
 import os
+import shutil
 import subprocess
 import tempfile
 import time
@@ -424,13 +425,13 @@ class Verifier(Calls):
         ax.append(z3.ForAll([es, ea], z3.Implies(z3.Length(es) == 0, cl._bytes_decode(es, ea) == z3.StringVal("")),
                             patterns=[cl._bytes_decode(es, ea)]))
         for name, vars_, expr in self.reg.axioms:
-            t = self.axiom_term(vars_, expr)
+            t = self.axiom_term(vars_, expr, patterns=self.reg.axiom_patterns.get(name))
             if name in self.reg.link_axioms:
                 _LINK[t.get_id()] = t
             ax.append(t)
         return ax
 
-    def axiom_term(self, vars_, expr, assumes=()):
+    def axiom_term(self, vars_, expr, assumes=(), patterns=None):
         env = {}
         qv = []
         for nm, srt in vars_.items():
@@ -441,6 +442,13 @@ class Verifier(Calls):
         body = self.spec_bool(parse_expr(expr), env)
         if assumes:
             body = z3.Implies(z3.And([self.spec_bool(parse_expr(a), env) for a in assumes]), body)
+        if patterns and qv:
+            pats = []
+            for pexpr in patterns:
+                pv = self.spec_value(parse_expr(pexpr), env)
+                pt = pv.seq if isinstance(pv, PSeq) else pv.h if isinstance(pv, PHist) else pv.t if isinstance(pv, PRaw) else self.to_term(pv)
+                pats.append(pt)
+            return z3.ForAll(qv, body, patterns=[z3.MultiPattern(*pats) if len(pats) > 1 else pats[0]])
         return z3.ForAll(qv, body) if qv else body
 
 
@@ -495,13 +503,15 @@ def axiom_keys(term):
             todo.append(x.body())
             continue
         if z3.is_app(x):
-            if x.decl().kind() == z3.Z3_OP_UNINTERPRETED and x.num_args() > 0:
+            if x.decl().kind() == z3.Z3_OP_UNINTERPRETED and x.num_args() > 0 and x.decl().name() not in UBIQUITOUS:
                 names.add(x.decl().name())
             todo.extend(x.children())
     return names
 
 
 _AX_KEYS = {}
+# engine symbols that occur in (nearly) every problem: they do not make an axiom relevant
+UBIQUITOUS = {"typeof", "subclass", "shape_kind", "has_attr", "accepts_kw"}
 _LINK = {}        # id -> term of "link" axioms (needing all their functions present); terms kept alive so that ids stay unique
 
 
@@ -557,27 +567,126 @@ def to_smt2_ground(obl):
     return s.to_smt2()
 
 
-def discharge_smt2(name, kind, line, smt2, timeout_ms=10000, use_cvc5=True, seed=0, detail="", retries=2):
-    """-> Result, from the SMT-LIB2 text (runs in any process).  Every attempt runs in a FRESH z3 context, so the verdict is a
-    function of the text and the seed only (z3's string solver is sensitive to what else lives in the context); a timeout is
-    retried with other seeds before it counts as undecided."""
+def term_symbols(term, cache={}):
+    """names of the uninterpreted constants and functions of a term (heap arrays and engine-wide symbols excluded)"""
+    k = term.get_id()
+    hit = cache.get(k)
+    if hit is not None and hit[1].eq(term):
+        return hit[0]
+    names = set()
+    seen = set()
+    todo = [term]
+    while todo:
+        x = todo.pop()
+        if x.get_id() in seen:
+            continue
+        seen.add(x.get_id())
+        if z3.is_quantifier(x):
+            todo.append(x.body())
+            continue
+        if z3.is_app(x):
+            if x.decl().kind() == z3.Z3_OP_UNINTERPRETED:
+                nm = x.decl().name()
+                if nm not in UBIQUITOUS and not nm.startswith("$") and not nm.startswith("f:") and not nm.startswith("alloc!"):
+                    names.add(nm)
+            todo.extend(x.children())
+    cache[k] = (names, term)
+    return names
+
+
+def to_smt2_sliced(obl, background):
+    """goal-directed weakening: only the assumptions connected to the goal through shared symbols (fixpoint), plus the relevant
+    background.  Dropping assumptions is sound for a proof; unrelated quantified facts are what makes z3 wander."""
+    from .symex import has_quantifier
+    link = lambda syms: {x for x in syms if not x.startswith("p_")}     # parameters occur everywhere: they do not link
+    live = link(term_symbols(obl.goal))
+    rest = list(obl.assumptions)
+    chosen = []
+    changed = True
+    while changed:
+        changed = False
+        keep = []
+        for a in rest:
+            syms = link(term_symbols(a))
+            if (syms & live) or (not syms and not has_quantifier(a)):
+                chosen.append(a)
+                if not syms <= live:
+                    live |= syms
+                    changed = True
+            else:
+                keep.append(a)
+        rest = keep
+    if not rest:
+        return None            # nothing dropped: same as the full problem
+    o2 = Obligation(obl.name, chosen, obl.goal, obl.kind, obl.line, obl.extra)
+    return to_smt2(o2, background)
+
+
+Z3CLI = shutil.which("z3-new")
+
+
+def run_z3_cli(smt2, timeout_ms, seed):
+    """z3 (the same 5.1 build as the wheel) as a separate process with a HARD time limit: the in-process `timeout` parameter
+    is only polled, and the sequence solver can run for minutes without polling it.  -> (status, model dict|None, reason)"""
+    with tempfile.NamedTemporaryFile("w", suffix=".smt2", delete=False) as fh:
+        fh.write(smt2 + "\n(check-sat)\n(get-model)\n")
+        path = fh.name
+    secs = max(1, int(timeout_ms / 1000))
+    try:
+        p = subprocess.run([Z3CLI, "-T:%d" % secs, "-t:%d" % timeout_ms, "smt.random_seed=%d" % seed, "sat.random_seed=%d" % seed, path],
+                           capture_output=True, text=True, timeout=secs + 10)
+        out = p.stdout
+    except subprocess.TimeoutExpired:
+        return "unknown", None, "timeout (killed)"
+    finally:
+        os.unlink(path)
+    first = out.strip().splitlines()[0].strip() if out.strip() else ""
+    if first == "unsat":
+        return "unsat", None, ""
+    if first == "sat":
+        return "sat", parse_cli_model(out), ""
+    return "unknown", None, ("timeout" if "timeout" in out else first[:80] or "no answer")
+
+
+def parse_cli_model(out, limit=60):
+    """constants of the model printed by (get-model): name -> value text"""
+    import re
+    mdl = {}
+    for m in re.finditer(r"\(define-fun (\|[^|]*\||\S+) \(\) (?:\([^()]*(?:\([^()]*\)[^()]*)*\)|\S+)\s+((?:\([^()]*(?:\([^()]*(?:\([^()]*\)[^()]*)*\)[^()]*)*\))|[^()\s]+)\)", out):
+        nm = m.group(1).strip("|")
+        if not (nm.startswith("p_") or nm.startswith("exc") or nm.startswith("res")):
+            continue
+        mdl[nm] = " ".join(m.group(2).split())[:120]
+        if len(mdl) >= limit:
+            break
+    return mdl
+
+
+def discharge_smt2(name, kind, line, smt2, timeout_ms=10000, use_cvc5=True, seed=0, detail="", retries=2, inproc=False):
+    """-> Result, from the SMT-LIB2 text (runs in any process).  Every attempt is a fresh solver process (or, inproc=True, a FRESH
+    z3 context), so the verdict is a function of the text and the seed only (z3's string solver is sensitive to what else lives
+    in the context); a timeout is retried with other seeds before it counts as undecided."""
     t0 = time.time()
     reason = ""
     for attempt in range(1 + max(0, retries)):
-        ctx = z3.Context()
-        s = z3.Solver(ctx=ctx)
-        s.set("timeout", timeout_ms)
-        s.set("random_seed", seed + attempt)
-        s.add(z3.parse_smt2_string(smt2, ctx=ctx))
-        r = s.check()
-        dt = time.time() - t0
         backend = "z3" if attempt == 0 else "z3 (retry seed+%d)" % attempt
-        if r == z3.unsat:
-            return Result(name, "proved", backend, dt, kind, line)
-        if r == z3.sat:
-            return Result(name, "refuted", backend, dt, kind, line, model=model_summary(s.model()), detail=detail)
-        reason = s.reason_unknown()
-        del s, ctx
+        if inproc or Z3CLI is None:
+            ctx = z3.Context()
+            s = z3.Solver(ctx=ctx)
+            s.set("timeout", timeout_ms)
+            s.set("random_seed", seed + attempt)
+            s.add(z3.parse_smt2_string(smt2, ctx=ctx))
+            r = s.check()
+            st = "unsat" if r == z3.unsat else "sat" if r == z3.sat else "unknown"
+            mdl = model_summary(s.model()) if st == "sat" else None
+            reason = s.reason_unknown() if st == "unknown" else ""
+            del s, ctx
+        else:
+            st, mdl, reason = run_z3_cli(smt2, timeout_ms, seed + attempt)
+        if st == "unsat":
+            return Result(name, "proved", backend, time.time() - t0, kind, line)
+        if st == "sat":
+            return Result(name, "refuted", backend, time.time() - t0, kind, line, model=mdl, detail=detail)
         if attempt == 0 and use_cvc5 and os.path.exists(CVC5) and "Val" not in smt2:
             st, t2 = run_cvc5_text(smt2, timeout_ms)
             if st == "unsat":
